@@ -207,8 +207,9 @@ func showDataMsg(m *entities.Message) string {
 	return fmt.Sprintf("D:%d:%d %s", m.GetObsDomainID(), tid, ShowRecords(set.GetRecords()))
 }
 
-// c01One runs one exchange. toks: <obs> <tid> <ntpl> <nf> specs.. <nrec> values..
-// ntpl > 1 repeats the template record under ids tid, tid+1, .. in ONE template set.
+// c01One runs one exchange. toks: <obs> <tid> <ntpl> <dsel> <nf> specs.. <nrec> values..
+// ntpl > 1 repeats the template record under ids tid, tid+1, .. in ONE template set; the data
+// set then uses template id tid+dsel.
 func c01One(p *c01Peer, toks []string) (obs string) {
 	defer func() {
 		if r := recover(); r != nil {
@@ -218,8 +219,9 @@ func c01One(p *c01Peer, toks []string) (obs string) {
 	od := uint32(atou(toks[0]))
 	tid := uint16(atou(toks[1]))
 	ntpl := atoi(toks[2])
-	nf := atoi(toks[3])
-	t := toks[4:]
+	dsel := uint16(atoi(toks[3]))
+	nf := atoi(toks[4])
+	t := toks[5:]
 	ies := make([]*entities.InfoElement, nf)
 	for i := 0; i < nf; i++ {
 		var spec IESpec
@@ -274,9 +276,9 @@ func c01One(p *c01Peer, toks []string) (obs string) {
 		return "tpl-send-error " + errClass(err)
 	}
 	dset := entities.NewSet(false)
-	dset.PrepareSet(entities.Data, tid)
+	dset.PrepareSet(entities.Data, tid+dsel)
 	for _, rec := range recs {
-		if err := dset.AddRecord(rec, tid); err != nil {
+		if err := dset.AddRecord(rec, tid+dsel); err != nil {
 			return "data-add-error " + errClass(err)
 		}
 	}
@@ -285,7 +287,7 @@ func c01One(p *c01Peer, toks []string) (obs string) {
 		return fmt.Sprintf("sent=%d data-send-error %s", n1, errClass(err))
 	}
 	// wait for the two deliveries (or for the collector to drop the connection)
-	deadline := time.Now().Add(4 * time.Second)
+	deadline := time.Now().Add(3 * time.Second * slowFactor())
 	var got []*entities.Message
 	for {
 		p.d.mu.Lock()
@@ -351,9 +353,17 @@ func runC01(env *Env) {
 				fixed += int(ies[i].Len)
 			}
 		}
+		class0 := ""
 		limit := 65535
-		if c.transport == "udp" || c.transport == "dtls" {
-			limit = 9000 // stays clear of loopback datagram / DTLS record limits; larger sizes belong to C09
+		if c.transport == "udp" {
+			limit = 65507 // the largest UDP payload (IPv4); on IPv6 loopback 65527 would fit
+		}
+		if c.transport == "dtls" {
+			limit = 8000 // pion/dtls receives into an 8192-byte buffer: see the dtls-big class
+			if k%13 == 5 {
+				limit = 9000 + r.Intn(4000)
+				class0 = "dtls-big"
+			}
 		}
 		class := "small"
 		nrec := 1 + r.Intn(4)
@@ -365,9 +375,19 @@ func runC01(env *Env) {
 		case 5:
 			class = "var-boundaries"
 		}
+		if class0 != "" {
+			class = "fit"
+			maxVar = 0
+		}
 		tid := uint16(256 + r.Intn(60000))
 		var sb strings.Builder
-		fmt.Fprintf(&sb, "%s %s %d %d 1 %d", c.transport, c.ipver, domain, tid, nf)
+		ntpl, dsel := 1, 0
+		if k%11 == 7 { // several template records in one template set (allowed by Set / SendSet)
+			ntpl = 2 + r.Intn(2)
+			dsel = r.Intn(ntpl)
+			class = "multi-template"
+		}
+		fmt.Fprintf(&sb, "%s %s %d %d %d %d %d", c.transport, c.ipver, domain, tid, ntpl, dsel, nf)
 		for _, ie := range ies {
 			fmt.Fprintf(&sb, " %d %d %d %d", ie.ElementId, ie.DataType, ie.EnterpriseId, ie.Len)
 		}
@@ -399,6 +419,9 @@ func runC01(env *Env) {
 			return genCase(c, k+1)
 		}
 		fmt.Fprintf(&sb, " %d %s", count, strings.Join(vals, " "))
+		if class0 != "" {
+			class = class0
+		}
 		return kase{sb.String(), c.transport + "/" + class}
 	}
 	for i, c := range cfgs {
